@@ -6,7 +6,7 @@ CONSTANTS
   Eps = 1
   Tol = 2
   MaxRows = 2
-  Retry = TRUE
+  Retry = FALSE
 INVARIANT Reflexive
 INVARIANT RefinesSound
 INVARIANT RefinesComplete
